@@ -46,6 +46,7 @@ PLAIN = {
     "text": (b"The quick brown fox jumps over the lazy dog. " * 5)[:200],
     "bomb": b"\x00" * (512 * 1024),
     "mixed": bytes(range(256)) * 20,
+    "records": b"".join(b"r%04d;" % i for i in range(1300)),
 }
 
 
@@ -174,7 +175,13 @@ class Scen:
     def menu(self):
         m = []
         n = self.ct.deliverable()
-        if n:
+        if n and self.case.get("drip"):
+            # a stream that only ever arrives in small reads (one network read never carries the whole body)
+            k = self.case["drip"]
+            m.append((f"rx.{k}", lambda: self._rx(k)))
+            if n > 7:
+                m.append(("rx.7", lambda: self._rx(7)))
+        elif n:
             m.append(("rx.all", lambda: self._rx(None)))
             if n > 7:
                 m.append(("rx.7", lambda: self._rx(7)))
@@ -290,6 +297,9 @@ def cases(quick):
     for enc in ENCS[1:]:
         for spelling in ("upper", "title"):
             add("text", enc, "length", 16, "readany", spelling=spelling)
+    # a long-lived compressed stream made of very many members (one per record), arriving in small reads
+    for framing in ("length", "chunked"):
+        add("records", "gzip", framing, 8192, "readany", members=1300, drip=400, bound=1)
     for framing in ("length", "chunked", "eof"):
         add("text", "gzip", framing, 16, "readany", members=3)
         add("bomb", "gzip", framing, 4096, "idle-readn", members=2)
@@ -317,6 +327,7 @@ def _job(job):
         if ex.capped:
             part.cap(f"pass horizon hit in {name}")
 
+    bound = min(bound, case.get("bound", bound))
     st = explorer.explore(factory, case, bound, max_execs=3000, max_passes=60000, on_exec=on_exec)
     if st["truncated"]:
         part.cap(f"execution cap 3000 hit for {name} at bound {bound} (complete up to bound {st['completed_bound']}, {st['executions']} executions reported)")
